@@ -13,3 +13,6 @@ REG['C14'] = check_sinks.run
 from . import check_queue
 for _p in check_queue.PROPS:
     REG[_p] = check_queue.run
+
+from . import check_c18
+REG['C18'] = check_c18.run
